@@ -9,6 +9,9 @@ _C02_UNITS = [
     # concurrent histories only, under the race detector (the quick tier runs 4 concurrent cases inside unit "table", without the detector)
     dict(name="table_race", harness="t_table", files=["common_", "c02_"], run="TestVerifC02", race=True, tiers=["thorough"],
          env={"VERIF_C02_RACE": "1"}, gomaxprocs=[4, 8, 16], shards=dict(quick=4, thorough=8), timeout_s=dict(quick=900, thorough=10800)),
+    # layer B (maintainer): daemon-level histories on the server simulator, compared through ListPath/ListPeer/GetTable/WatchEvent
+    dict(name="sim", harness="t_server", files=["sim_", "c01_", "c02_"], run="TestVerifC02Sim",
+         shards=dict(quick=16, thorough=16), timeout_s=dict(quick=1800, thorough=10800)),
 ]
 _C02_MUST = (
     ["ops", "full_comparisons", "comparisons_after_change", "dest_checks_loc", "dest_checks_adj", "counter_checks", "adj_tableinfo_checks",
@@ -19,7 +22,9 @@ _C02_MUST = (
                          "flip-to-rejected", "flip-to-accepted", "peer-down", "local-delete-all", "stale-all", "drop-stale", "llgr-stale-or-drop")] +
     ["lookup_loc_" + k for k in ("exact", "exact-by-address", "longer", "shorter", "vpn-exact", "vpn-longer", "vpn-shorter",
                                  "vpn-exact-any-rd", "vpn-longer-any-rd", "vpn-shorter-any-rd", "evpn-route-type", "whole-table")] +
-    ["lookup_adj_" + k for k in ("exact", "longer", "shorter")]
+    ["lookup_adj_" + k for k in ("exact", "longer", "shorter")] +
+    ["adj_in_comparisons", "loc_rib_comparisons", "counter_comparisons", "gettable_comparisons", "lookup_comparisons", "watcher_comparisons",
+     "watcher_events", "ev_delete-peer", "ev_flap", "ev_reestablish", "ev_burst"]
 )
 
 PROPS["C02"] = dict(
